@@ -256,7 +256,7 @@ impl Default for StartOpts {
         StartOpts {
             jitter: None,
             events: true,
-            log_level: "info".into(),
+            log_level: std::env::var("PGV_LOG_LEVEL").unwrap_or("info".into()),
             wait_ms: 10_000,
         }
     }
